@@ -3,7 +3,7 @@
 
    Vocabulary (C08/Model.v):
      fetch ops inflate gflush gnew c g0 s   what final_callback receives for the response stream s:
-                                             Res outcome eof_consumed streamed_bytes
+                                             Res outcome eof_consumed streamed_bytes body_written_on_100
      strict_client c t b  = fetch on the whole byte string b   (the strict reader, the specification)
      client_seg c t segs  = fetch on an IOStream fed the TCP segments segs one at a time, then EOF
      inflate / gflush / gnew                an arbitrary gzip decompressor (zlib is not modelled; the
@@ -16,14 +16,15 @@ From Coq Require Import String.
 From Coq Require Import List NArith Bool.
 Import ListNotations.
 From TV Require Import Lib.Obs C08.Base C08.BaseProofs C08.Model C08.Run
-                       C08.Proofs C08.Proofs2 C08.ProofsChunk C08.Proofs3.
+                       C08.Proofs C08.Proofs2 C08.ProofsChunk C08.ProofsFuel C08.Proofs3 C08.Desc Gen.C08_src Gen.C08_equiv.
 
 (* ===== (REF) every segmentation gives the strict reader's answer ===== *)
 
 (* Without decompression, for every configuration (limits, HEAD, streaming or not), every
    segmentation of every byte stream: same response (status, reason, headers, body), or the same
-   error; the same bytes to streaming_callback; and the fetch completes before EOF exactly when
-   the strict reader does not need the EOF. *)
+   error; the same bytes to streaming_callback; the fetch completes before EOF exactly when
+   the strict reader does not need the EOF; and (expect_100_continue) the held-back request body
+   is written exactly when the strict reader sees the 100 (Continue). *)
 Theorem C08_segmentation_independent :
   forall c t segs, decompress c = false -> client_seg c t segs = strict_client c t (concat segs).
 Proof. exact client_seg_eq_strict_plain. Qed.
@@ -46,29 +47,32 @@ Print Assumptions C08_segmentation_independent_decompressing.
 
 (* For every decompressor, configuration and segmentation: what streaming_callback received
    (also in failed fetches) and the body of a returned response (after decompression) are at
-   most max_body_size bytes, and a returned response never has a 1xx status. *)
+   most max_body_size bytes, a returned response never has a 1xx status, and a held-back request
+   body is written only when the request asked for 100-continue. *)
 Theorem C08_delivered_body_within_limit :
-  forall c t segs o e st,
-    client_seg c t segs = Res o e st ->
+  forall c t segs o e st sn,
+    client_seg c t segs = Res o e st sn ->
+    (sn = true -> expect100 c = true) /\
     (N.of_nat (length st) <= max_body c)%N /\
     match o with
     | OResp code _ _ body => (N.of_nat (length body) <= max_body c)%N /\ is_1xx code = false
     | OErr _ => True
     end.
-Proof. intros c t segs o e st H. pose proof (client_seg_ok c t segs) as K. rewrite H in K. exact K. Qed.
+Proof. intros c t segs o e st sn H. pose proof (client_seg_ok c t segs) as K. rewrite H in K. exact K. Qed.
 Print Assumptions C08_delivered_body_within_limit.
 
 Theorem C08_delivered_body_within_limit_any_decompressor :
   forall (G : Type) (inflate : G -> bytes -> nat -> option (G * bytes * bytes))
-         (gflush : G -> G * bool * bool) (gnew : G -> G) (c : cfg) (g0 : G) (segs : list bytes) o e st,
-    fetch seg_ops inflate gflush gnew c g0 ([], segs) = Res o e st ->
+         (gflush : G -> G * bool * bool) (gnew : G -> G) (c : cfg) (g0 : G) (segs : list bytes) o e st sn,
+    fetch seg_ops inflate gflush gnew c g0 ([], segs) = Res o e st sn ->
+    (sn = true -> expect100 c = true) /\
     (N.of_nat (length st) <= max_body c)%N /\
     match o with
     | OResp code _ _ body => (N.of_nat (length body) <= max_body c)%N /\ is_1xx code = false
     | OErr _ => True
     end.
 Proof.
-  intros G inflate gflush gnew c g0 segs o e st H.
+  intros G inflate gflush gnew c g0 segs o e st sn H.
   pose proof (fetch_ok seg_ops inflate gflush gnew c (fun cs n s => s_bodylen cs n s) g0 ([], segs)) as K.
   rewrite H in K. exact K.
 Qed.
@@ -79,14 +83,14 @@ Print Assumptions C08_delivered_body_within_limit_any_decompressor.
 Theorem C08_rejects_truncated_header_block :
   forall G inflate gflush gnew c (g0 : G) b,
     w_delim find_term (max_header c) b = REof ->
-    fetch whole_ops inflate gflush gnew c g0 b = Res (OErr EStreamClosed) true [].
+    fetch whole_ops inflate gflush gnew c g0 b = Res (OErr EStreamClosed) true [] false.
 Proof. exact @reject_truncated_head. Qed.
 Print Assumptions C08_rejects_truncated_header_block.
 
 Theorem C08_rejects_oversize_header_block :
   forall G inflate gflush gnew c (g0 : G) b,
     w_delim find_term (max_header c) b = RUnsat ->
-    fetch whole_ops inflate gflush gnew c g0 b = Res (OErr EUnsat) false [].
+    fetch whole_ops inflate gflush gnew c g0 b = Res (OErr EUnsat) false [] false.
 Proof. exact @reject_oversize_head. Qed.
 Print Assumptions C08_rejects_oversize_header_block.
 
@@ -94,7 +98,7 @@ Print Assumptions C08_rejects_oversize_header_block.
 Theorem C08_rejects_malformed_head :
   forall G inflate gflush gnew c (g0 : G) b hd rest,
     head_at c b hd rest -> parse_resp_head hd = None ->
-    fetch whole_ops inflate gflush gnew c g0 b = Res (OErr EMalformed) false [].
+    fetch whole_ops inflate gflush gnew c g0 b = Res (OErr EMalformed) false [] false.
 Proof. exact @reject_unparsable_head. Qed.
 Print Assumptions C08_rejects_malformed_head.
 
@@ -103,7 +107,8 @@ Theorem C08_rejects_interim_with_body_headers :
   forall G inflate gflush gnew c (g0 : G) b hd rest code reason h0,
     head_at c b hd rest -> parse_resp_head hd = Some (code, reason, h0) -> is_1xx code = true ->
     hmem h0 K_CL || hmem h0 K_TE = true ->
-    fetch whole_ops inflate gflush gnew c g0 b = Res (OErr EConnClosed) false [].
+    fetch whole_ops inflate gflush gnew c g0 b
+      = Res (OErr EConnClosed) false [] (expect100 c && (code =? 100)%N).
 Proof. exact @reject_interim_with_framing. Qed.
 Print Assumptions C08_rejects_interim_with_body_headers.
 
@@ -112,7 +117,7 @@ Theorem C08_rejects_bad_framing :
   forall G inflate gflush gnew c (g0 : G) b rest code reason d1 h,
     final_at gnew c g0 b rest code reason d1 h -> is_head c || (code =? 304)%N = false ->
     body_plan (max_body c) code h = None ->
-    fetch whole_ops inflate gflush gnew c g0 b = Res (OErr EConnClosed) false [].
+    fetch whole_ops inflate gflush gnew c g0 b = Res (OErr EConnClosed) false [] false.
 Proof. exact @reject_bad_framing. Qed.
 Print Assumptions C08_rejects_bad_framing.
 
@@ -158,7 +163,7 @@ Theorem C08_truncated_fixed_body_is_connection_closed :
     decompress c = false ->
     body_plan (max_body c) code h = Some (PFixed n, h') -> (N.of_nat (length rest) < n)%N ->
     fetch whole_ops inflate gflush gnew c g0 b
-      = Res (OErr EConnClosed) true (if streaming c then rest else []).
+      = Res (OErr EConnClosed) true (if streaming c then rest else []) false.
 Proof. exact @reject_truncated_fixed_body_plain. Qed.
 Print Assumptions C08_truncated_fixed_body_is_connection_closed.
 
@@ -178,7 +183,7 @@ Theorem C08_rejects_oversize_close_delimited_body :
   forall G inflate gflush gnew c (g0 : G) b rest code reason d1 h h',
     final_at gnew c g0 b rest code reason d1 h -> is_head c || (code =? 304)%N = false ->
     body_plan (max_body c) code h = Some (PClose, h') -> (max_body c < N.of_nat (length rest))%N ->
-    fetch whole_ops inflate gflush gnew c g0 b = Res (OErr EConnClosed) true [].
+    fetch whole_ops inflate gflush gnew c g0 b = Res (OErr EConnClosed) true [] false.
 Proof. exact @reject_oversize_close_body. Qed.
 Print Assumptions C08_rejects_oversize_close_delimited_body.
 
@@ -187,14 +192,14 @@ Print Assumptions C08_rejects_oversize_close_delimited_body.
 Theorem C08_rejects_truncated_gzip :
   forall G (gflush : G -> G * bool * bool) c (d : dstate) code reason h e g',
     d_gzon d = true -> d_gzrecv d = true -> gflush (d_gz d) = (g', false, false) ->
-    do_finish gflush c d code reason h e = Res (OErr EMalformed) e (d_streamed d).
+    do_finish gflush c d code reason h e = Res (OErr EMalformed) e (d_streamed d) (d_sent d).
 Proof. exact @reject_truncated_gzip. Qed.
 Print Assumptions C08_rejects_truncated_gzip.
 
 Theorem C08_rejects_gzip_flush_tail :
   forall G (gflush : G -> G * bool * bool) c (d : dstate) code reason h e g' ateof,
     d_gzon d = true -> gflush (d_gz d) = (g', true, ateof) ->
-    do_finish gflush c d code reason h e = Res (OErr EQuiet) e (d_streamed d).
+    do_finish gflush c d code reason h e = Res (OErr EQuiet) e (d_streamed d) (d_sent d).
 Proof. exact @reject_gzip_flush_tail. Qed.
 Print Assumptions C08_rejects_gzip_flush_tail.
 
@@ -242,20 +247,64 @@ Theorem C08_head_and_304_have_no_body :
 Proof. exact @roundtrip_no_body. Qed.
 Print Assumptions C08_head_and_304_have_no_body.
 
-(* a well-formed interim response changes nothing: the fetch is the fetch of what follows it *)
+(* a well-formed interim response (other than the awaited 100) changes nothing: the fetch is the
+   fetch of what follows it *)
 Theorem C08_interim_response_is_skipped :
   forall G inflate gflush gnew c (g0 : G) b hd rest code reason h0,
     head_at c b hd rest -> parse_resp_head hd = Some (code, reason, h0) -> is_1xx code = true ->
     hmem h0 K_CL || hmem h0 K_TE = false -> decompress c = false ->
-    fetch whole_ops inflate gflush gnew c g0 rest <> OutOfFuel ->
+    expect100 c && (code =? 100)%N = false ->
     fetch whole_ops inflate gflush gnew c g0 b = fetch whole_ops inflate gflush gnew c g0 rest.
 Proof. exact @interim_is_skipped. Qed.
 Print Assumptions C08_interim_response_is_skipped.
 
-(* ===== the model satisfies the checker applied to the implementation's observables =====
-   PARTIAL: the premise excludes the model's OutOfFuel result; that the fuel given in Model.v always
-   suffices is not proved (see NOTES.md). *)
-Theorem C08_model_satisfies_checker_partial :
-  forall i, client_seg (cfg_of i) (tbl_of i) (segs_of i) <> OutOfFuel -> check_case i (run_case i) = true.
-Proof. exact model_satisfies_checker_partial. Qed.
-Print Assumptions C08_model_satisfies_checker_partial.
+(* ===== expect_100_continue (POST with the body held back; run() -> _read_response directly) ===== *)
+
+(* the awaited 100 (Continue) makes the client write the body; the fetch then is the fetch of
+   what follows, with the body marked as written (fetch_sent) *)
+Theorem C08_continue_releases_request_body :
+  forall G inflate gflush gnew c (g0 : G) b hd rest reason h0,
+    head_at c b hd rest -> parse_resp_head hd = Some (100%N, reason, h0) ->
+    hmem h0 K_CL || hmem h0 K_TE = false -> decompress c = false -> expect100 c = true ->
+    fetch whole_ops inflate gflush gnew c g0 b = fetch_sent whole_ops inflate gflush gnew c g0 rest.
+Proof. exact @continue_sends_body. Qed.
+Print Assumptions C08_continue_releases_request_body.
+
+(* the body is never written twice: a second 100 (Continue) fails the fetch *)
+Theorem C08_second_continue_is_refused :
+  forall G inflate gflush gnew c (g0 : G) b hd rest reason h0,
+    head_at c b hd rest -> parse_resp_head hd = Some (100%N, reason, h0) -> expect100 c = true ->
+    fetch_sent whole_ops inflate gflush gnew c g0 b = Res (OErr EConnClosed) false [] true.
+Proof. exact @repeated_continue_rejected. Qed.
+Print Assumptions C08_second_continue_is_refused.
+
+(* ===== the framing rules read from the source text are the model's =====
+   src_desc is regenerated from tornado/http1connection.py on every run by translators/c08_src.py
+   (is_transfer_encoding_chunked, _read_body, _read_body_until_close matched statement by statement,
+   with the header names, token, comparison operators, no-body status and its allowed lengths as
+   holes); plan_of_desc / close_refused (C08/Desc.v) give such a description its meaning. *)
+Theorem C08_source_framing_rules_are_the_model :
+  forall maxb code h, plan_of_desc src_desc maxb code h = body_plan maxb code h.
+Proof. exact src_plan_is_body_plan. Qed.
+Print Assumptions C08_source_framing_rules_are_the_model.
+
+Theorem C08_source_close_delimited_limit_is_the_model :
+  forall maxb len, close_refused src_desc maxb len = (maxb <? len)%N.
+Proof. exact src_close_check. Qed.
+Print Assumptions C08_source_close_delimited_limit_is_the_model.
+
+(* ===== the model always answers (fuel suffices), on every stream and decompressor ===== *)
+Theorem C08_model_never_out_of_fuel :
+  forall G inflate gflush gnew c (g0 : G),
+    (forall b, fetch whole_ops inflate gflush gnew c g0 b <> OutOfFuel) /\
+    (forall s, fetch seg_ops inflate gflush gnew c g0 s <> OutOfFuel).
+Proof.
+  intros G inflate gflush gnew c g0. split; intros x;
+    [apply strict_never_out_of_fuel|apply seg_never_out_of_fuel].
+Qed.
+Print Assumptions C08_model_never_out_of_fuel.
+
+(* ===== the model satisfies the checker applied to the implementation's observables ===== *)
+Theorem C08_model_satisfies_checker : forall i, check_case i (run_case i) = true.
+Proof. exact model_satisfies_checker. Qed.
+Print Assumptions C08_model_satisfies_checker.
